@@ -87,7 +87,8 @@ def cases(tier, seed):
                 oi = (j * 3 + t * 5) % len(OPTSETS)
                 yield {"sched": sched if (j + t) % 5 else sched.upper(),
                        "mode": mode, "B": B, "have": have, "sel": sel,
-                       "selform": ["tuple", "list", "range"][(j + t) % 3],
+                       "selform": ["tuple", "list", "range", "gen"][
+                           (j + t) % 4],
                        "opts": oi}
         for have in subsets:
             yield {"cli": True, "B": B, "have": have}
@@ -102,7 +103,7 @@ def cases(tier, seed):
         if tier == "quick" and j % 2:
             continue
         yield {"sched": sched, "mode": mode, "B": B, "have": have, "sel": sel,
-               "selform": ["tuple", "list", "range"][j % 3]
+               "selform": ["tuple", "list", "range", "gen"][j % 4]
                if sel != [9, 10, 11] else "range",
                "opts": (j * 3) % len(OPTSETS)}
     for have in haves:
@@ -192,6 +193,9 @@ def check_case(case):
     elif sel is not None and case["selform"] == "range" and len(sel) == 2 \
             and sel[1] == sel[0] + 1:
         bids = range(sel[0], sel[1] + 1)
+    elif sel is not None and case["selform"] == "gen":
+        # (a one-shot iterator)
+        bids = (i for i in sel)
     else:
         bids = None if sel is None else list(sel)
     out = os.path.join(d, "out")
